@@ -1,6 +1,8 @@
 package main
 
 import (
+	"fmt"
+
 	btpb "cloud.google.com/go/bigtable/apiv2/bigtablepb"
 	"strings"
 
@@ -12,13 +14,13 @@ import (
 func init() {
 	register(&PropDef{
 		ID: "C14", Level: "exploration", Quick: 10000, Thorough: 500000, QuickCap: 100,
-		Rule:   "each run = one engine (disk: clean restarts and kill-images between requests), 1-40 requests over 3 parents (one a string prefix of another) x 3 table ids mixing CreateTable/DeleteTable/GetTable/ListTables, ModifyColumnFamilies with 1-3 modifications (create/update/drop, failing at position k, drop then re-create), DropRowRange (prefix equal to a key, ending in 0xff, matching nothing; all rows) and data requests; after every request the touched rows, and at a drawn frequency every table's schema and rows, are compared with the registry model; distinct = hash of (engine, op shapes); non-trivial = at least 2 requests. A quarter of the runs are concurrent: 2-3 client tasks x 1-4 requests (create, delete, get, list, add/drop a family, mutate, read, drop a prefix, drop all rows) on ONE table name under the seeded scheduler, the history checked with porcupine against a registry model (AlreadyExists / NotFound / fresh table after re-creation / purged family) while an untouched table must stay listed and intact",
+		Rule:   "each run = one engine (disk: clean restarts and kill-images between requests), 1-40 requests over 3 parents (one a string prefix of another) x 3 table ids mixing CreateTable/DeleteTable/GetTable/ListTables, ModifyColumnFamilies with 1-3 modifications (create/update/drop, failing at position k, drop then re-create), DropRowRange (prefix equal to a key, ending in 0xff, matching nothing; all rows), data requests and bulk loads of 20-150 rows inserted once in key order (a third of them holding two families, so that a family drop rewrites some rows and removes others); after every request the touched rows, and at a drawn frequency every table's schema and rows, are compared with the registry model; distinct = hash of (engine, op shapes); non-trivial = at least 2 requests. A quarter of the runs are concurrent: 2-3 client tasks x 1-4 requests (create, delete, get, list, add/drop a family, mutate, read, drop a prefix, drop all rows) on ONE table name under the seeded scheduler, the history checked with porcupine against a registry model (AlreadyExists / NotFound / fresh table after re-creation / purged family) while an untouched table must stay listed and intact",
 		Real:   []string{"bttest admin handlers (CreateTable, DeleteTable, GetTable, ListTables, ModifyColumnFamilies, DropRowRange)", "data handlers", "all three engines; start-up recovery on disk restarts"},
 		Stub:   []string{"gRPC transport (direct calls)", "process kill = directory image between requests"},
 		Assume: []string{"NotFound / AlreadyExists are required where the statement names them, any error otherwise", "the order of ListTables is unspecified (sorted before comparing)", "an empty row-key prefix is not sent (unspecified)"},
 		Run:    runC14,
 	})
-	expectedProbes["C14"] = []string{"c14.modify_fail_at_k", "c14.drop_family_with_data", "c14.recreate_table", "c14.drop_prefix_hit", "c14.deleted_table_request", "restart", "c14.concurrent_creates", "c14.overlapping_admin_ops", "c14.porcupine_ok"}
+	expectedProbes["C14"] = []string{"c14.modify_fail_at_k", "c14.drop_family_with_data", "c14.recreate_table", "c14.drop_prefix_hit", "c14.deleted_table_request", "restart", "c14.concurrent_creates", "c14.overlapping_admin_ops", "c14.porcupine_ok", "c14.bulk_load"}
 }
 
 var c14Parents = []string{"projects/p/instances/i1", "projects/p/instances/i2", "projects/p/instances/i10"} // i1 is a string prefix of i10
@@ -36,9 +38,9 @@ func makeC14Gen(r *Run) func(d *draws, m *btModel, i int) btOp {
 // multi-step situations (a clear after an interrupted clear, re-creation after deletion, schema
 // changes on populated tables) are reached often.
 var c14Mixes = [][]int{
-	{5, 2, 2, 2, 6, 3, 1, 8, 2, 2},
-	{3, 3, 0, 0, 1, 2, 8, 8, 1, 1},  // clear / delete / re-create heavy
-	{2, 1, 1, 0, 12, 2, 1, 8, 1, 4}, // schema heavy
+	{5, 2, 2, 2, 6, 3, 1, 8, 2, 2, 1},
+	{3, 3, 0, 0, 1, 2, 8, 8, 1, 1, 1},  // clear / delete / re-create heavy
+	{2, 1, 1, 0, 12, 2, 1, 8, 1, 4, 1}, // schema heavy
 }
 
 func makeC14GenMix(r *Run, mix int) func(d *draws, m *btModel, i int) btOp {
@@ -131,6 +133,23 @@ func makeC14GenMix(r *Run, mix int) func(d *draws, m *btModel, i int) btOp {
 				rule = &btpb.ReadModifyWriteRule{FamilyName: fam, ColumnQualifier: []byte("a"), Rule: &btpb.ReadModifyWriteRule_AppendValue{AppendValue: []byte("x")}}
 			}
 			return btOp{Kind: "RMW", Table: t, Key: btRowKeys[d.n(len(btRowKeys))], Rules: []*btpb.ReadModifyWriteRule{rule}}
+		case 10:
+			// bulk load: enough rows, each inserted once and in key order, that the engines' internal
+			// structures (tree nodes that fill up, iterator batches) matter to what follows; every
+			// third row also holds a cell of the second family, so a family drop rewrites some rows
+			// and removes others
+			t := pickTable(d, m)
+			op := btOp{Kind: "MutateRows", Table: t}
+			n := 20 + d.n(130)
+			for e := 0; e < n; e++ {
+				muts := mutList{setCell("f1", "q", 1000, "b")}
+				if e%3 == 0 {
+					muts = append(muts, setCell("f2", "q", 2000, "c"))
+				}
+				op.Entries = append(op.Entries, entryIn{Key: fmt.Sprintf("b%03d", e), Muts: muts})
+			}
+			r.Probe("c14.bulk_load")
+			return op
 		default:
 			t := pickTable(d, m)
 			return btOp{Kind: "ReadAll", Table: t}
